@@ -437,6 +437,10 @@ func WaitIdle() []BlockedInfo {
 	return Blocked()
 }
 
+// PendingTimers returns the number of armed one-shot timers (AfterFunc / NewTimer)
+// that have neither fired nor been stopped.
+func PendingTimers() int { return call(request{kind: nBlocked, n: 2}).n }
+
 // Blocked lists the threads that are parked right now.
 func Blocked() []BlockedInfo {
 	g := call(request{kind: nBlocked})
@@ -1204,6 +1208,14 @@ func (s *sched) notify(t *thread, r *request) grant {
 			s.now = r.d
 		}
 	case nBlocked:
+		if r.n == 2 {
+			for _, tt := range s.threads {
+				if !tt.finished && !tt.cancelled && tt.pending != nil && tt.isTimer && !tt.fired {
+					g.n++
+				}
+			}
+			break
+		}
 		if r.n == 1 {
 			var l []*thread
 			for _, tt := range s.threads {
